@@ -111,6 +111,18 @@ pub open spec fn range_accept_i<H>(p: Boudot2000RangeProof, g: int, h: int, n: i
     sdr_accept_i::<H>(p, g, h, n, a, b, 128, 40, range_tt(a, b))
 }
 
+/// well-formedness of a range proof as an honest prover builds it: every embedded commitment is a unit modulo n
+/// (the verifiers invert them: on a non-unit `pow_mod(.., negative, n).unwrap()` panics, which is a refusal)
+pub open spec fn tol_wf(p: ProofWt, n: int) -> bool {
+    &&& invertible(p.E_a_1@, n) && invertible(p.E_b_1@, n) && invertible(p.E_a_2@, n) && invertible(p.E_b_2@, n)
+    &&& invertible(p.proof_of_square_a.E@, n) && invertible(p.proof_of_square_a.F@, n)
+    &&& invertible(p.proof_of_square_b.E@, n) && invertible(p.proof_of_square_b.F@, n)
+}
+
+pub open spec fn range_wf(p: Boudot2000RangeProof, n: int) -> bool {
+    invertible(p.E@, n) && invertible(p.E_prime@, n) && tol_wf(p.proof_of_tolerance, n)
+}
+
 pub proof fn lemma_ipow2_pos(k: nat)
     ensures ipow(2, k) >= 1,
     decreases k,
@@ -225,6 +237,20 @@ pub open spec fn n2c_accepts<CS: CLCiphersuite>(p: NISP2Commitments, c1: CL03Com
     let w2 = ((resp_prod(cpk.g_bases@, p.d@, idx, n2, k) * pow_mod(cpk.h@, p.d_2@, n2)) * pow_mod(c2.value@, -1 * p.challenge@, n2)) % n2;
     p.challenge@ == from_digits_be(hash_str::<CS::HashAlg>(dec_string(w1) + dec_string(w2)))
 }
+
+/// statements of the two issuance sigma protocols as honest parties hold them (under these the verifiers cannot panic)
+pub open spec fn ms_wf(p: NISPMultiSecrets, pk: CL03PublicKey, bases: Seq<Integer>, idx: Seq<usize>) -> bool {
+    &&& pk.N@ > 1 && p.s1@.len() == idx.len() && invertible(pk.b@, pk.N@)
+    &&& forall|t: int| 0 <= t < idx.len() ==> (#[trigger] idx[t]) < bases.len() && invertible(bases[idx[t] as int]@, pk.N@)
+}
+
+pub open spec fn n2c_wf(p: NISP2Commitments, c1: CL03Commitment, c2: CL03Commitment, pk: CL03PublicKey, bases: Seq<Integer>, cpk: CL03CommitmentPublicKey, idx: Seq<usize>) -> bool {
+    &&& pk.N@ > 1 && cpk.N@ > 1 && p.d@.len() >= idx.len()
+    &&& invertible(c1.value@, pk.N@) && invertible(c2.value@, cpk.N@) && invertible(pk.b@, pk.N@) && invertible(cpk.h@, cpk.N@)
+    &&& forall|t: int| 0 <= t < idx.len() ==> (#[trigger] idx[t]) < bases.len() && idx[t] < cpk.g_bases@.len()
+            && invertible(bases[idx[t] as int]@, pk.N@) && invertible(cpk.g_bases@[idx[t] as int]@, cpk.N@)
+}
+
 /// acceptance of a Boudot range proof against (bases, modulus, bounds): the unfolded predicate of Boudot2000RangeProof::verify
 pub open spec fn range_accepts<H>(p: Boudot2000RangeProof, g: int, h: int, n: int, lo: int, hi: int) -> bool {
     range_accept_i::<H>(p, g, h, n, lo, hi)
@@ -255,6 +281,20 @@ pub open spec fn zk_trusted_ok<CS: CLCiphersuite>(zk: CL03ZKPoK, c: CL03Commitme
     }
 }
 
+/// an issuance proof as an honest holder builds it (C14.generate.wf): every embedded commitment a unit, every hidden position
+/// backed by a unit base.  Under zk_wf (and the acceptance predicates) verify_proof cannot panic.
+pub open spec fn zk_wf(zk: CL03ZKPoK, c: CL03Commitment, ct: Option<&CL03Commitment>, pk: CL03PublicKey, bases: Seq<Integer>, cpk: Option<&CL03CommitmentPublicKey>, idx: Seq<usize>) -> bool {
+    &&& pk.N@ > 1 && bases.len() >= 1 && invertible(bases[0]@, pk.N@) && invertible(pk.b@, pk.N@)
+    &&& ms_wf(zk.proof_commited_msgs, pk, bases, idx)
+    &&& forall|j: int| 0 <= j < idx.len() ==> range_wf(#[trigger] zk.range_proofs_mi@[j], pk.N@)
+    &&& forall|j: int| 0 <= j < idx.len() ==> invertible((#[trigger] zk.proofs_commited_mi@[j]).commitment.value@, pk.N@)
+    &&& range_wf(zk.range_proof_r, pk.N@) && invertible(zk.proof_r.commitment.value@, pk.N@)
+    &&& match (ct, cpk) {
+            (Some(t), Some(k)) => zk.proof_C_Ctrusted is Some && n2c_wf(zk.proof_C_Ctrusted->Some_0, c, *t, pk, bases, *k, idx),
+            _ => true,
+        }
+}
+
 /// F11b: the per-attribute commitments (and the commitment to r) are commitments to the SAME m_i (and r) that C opens to.
 /// Nothing in the proof format lets a verifier establish this (the sub-proofs use independent blindings), so no code can
 /// discharge it: it is the contract-level statement of the protocol gap.
@@ -267,6 +307,17 @@ pub open spec fn ext_value(c: int, bases: Seq<Integer>, rev: Seq<CL03Message>, i
     decreases k,
 {
     if k <= 0 { c } else { (ext_value(c, bases, rev, idx, n, k - 1) * pow_mod(bases[idx[k - 1] as int]@, rev[k - 1].value@, n)) % n }
+}
+
+/// the revealed attributes an issuer folds into the commitment, as an honest caller passes them: one index per attribute,
+/// every index names a base, a negative attribute needs a unit base (anything else is refused by a panic)
+pub open spec fn revealed_ok(bases: Seq<Integer>, rev: Option<&[CL03Message]>, idx: Option<&[usize]>, n: int) -> bool {
+    match (rev, idx) {
+        (Some(m), Some(i)) => m@.len() == i@.len()
+            && (forall|t: int| 0 <= t < m@.len() ==> (#[trigger] i@[t]) < bases.len())
+            && (forall|t: int| 0 <= t < m@.len() ==> (#[trigger] m@[t]).value@ >= 0 || invertible(bases[i@[t] as int]@, n)),
+        _ => true,
+    }
 }
 
 /// the commitment value the issuer signs: C itself, or C extended with the revealed attributes when both lists are given
@@ -295,6 +346,11 @@ pub open spec fn safe_rsa_modulus(n: int, secparam: nat) -> bool {
 
 pub open spec fn eff_idx0(idx: Option<&[usize]>) -> Seq<usize> {
     match idx { Some(s) => s@, None => seq![0usize] }
+}
+
+/// the index list nispMultiSecrets actually walks: [0] when there is a single attribute, else the given list (default [0])
+pub open spec fn ms_eff_idx(n_msgs: int, idx: Option<&[usize]>) -> Seq<usize> {
+    if n_msgs == 1 { seq![0usize] } else { eff_idx0(idx) }
 }
 
 // ---- proof of knowledge of a signature (CL03PoKSignature) ----------------------------------------------------------
@@ -332,6 +388,20 @@ pub open spec fn nisp5_accepts<CS: CLCiphersuite>(p: NISPSignaturePoK, cpk: CL03
     ch == from_digits_be(hash_str::<CS::HashAlg>(dec_string(t1) + dec_string(t2) + dec_string(t3) + dec_string(t4) + dec_string(t5)))
 }
 
+/// the statement of a signature proof as an honest verifier holds it and an honest prover answers it: enough unit bases,
+/// an ascending hidden set below k, one response per hidden position, one revealed attribute per other position, unit
+/// commitments.  Under n5_wf the verifier cannot panic (no index out of range, no inverse of a non-unit).
+pub open spec fn n5_wf(p: NISPSignaturePoK, cpk: CL03CommitmentPublicKey, pk: CL03PublicKey, bases: Seq<Integer>, msgs: Seq<CL03Message>, idx: Seq<usize>, k: int) -> bool {
+    let n = pk.N@;
+    &&& n > 1 && 1 <= k <= usize::MAX && k <= bases.len() && k <= cpk.g_bases@.len()
+    &&& strictly_sorted(idx) && (forall|t: int| 0 <= t < idx.len() ==> (#[trigger] idx[t]) < k)
+    &&& p.s_5@.len() == idx.len() && msgs.len() == k - idx.len()
+    &&& (forall|i: int| 0 <= i < k ==> invertible(#[trigger] bases[i]@, n))
+    &&& (forall|i: int| 0 <= i < k ==> invertible(#[trigger] cpk.g_bases@[i]@, n))
+    &&& invertible(cpk.h@, n) && invertible(pk.b@, n) && invertible(pk.c@, n)
+    &&& invertible(p.Cv.value@, n) && invertible(p.Cw.value@, n) && invertible(p.Cx.value@, n) && invertible(p.Ce.value@, n)
+}
+
 pub open spec fn spok_core<CS: CLCiphersuite>(p: CL03PoKSignature, cpk: CL03CommitmentPublicKey, pk: CL03PublicKey, bases: Seq<Integer>, msgs: Seq<CL03Message>, idx: Seq<usize>, n: int) -> bool {
     &&& nisp5_accepts::<CS>(p.spok, cpk, pk, bases, msgs, idx, n)
     &&& p.spok.Ce.value@ == p.range_proof_e.E@
@@ -339,6 +409,15 @@ pub open spec fn spok_core<CS: CLCiphersuite>(p: CL03PoKSignature, cpk: CL03Comm
     &&& p.proofs_commited_mi@.len() >= idx.len() && p.range_proofs_commited_mi@.len() >= idx.len()
     &&& forall|k: int| 0 <= k < idx.len() ==> nisp2sec_accepts::<CS>((#[trigger] p.proofs_commited_mi@[k]).value, p.proofs_commited_mi@[k].commitment, cpk.g_bases@[idx[k] as int]@, cpk.h@, cpk.N@)
     &&& forall|k: int| 0 <= k < idx.len() ==> range_accepts::<CS::HashAlg>(#[trigger] p.range_proofs_commited_mi@[k], cpk.g_bases@[idx[k] as int]@, cpk.h@, cpk.N@, 0, ipow(2, CS::lm as nat) - 1)
+}
+
+/// a proof of knowledge of a signature as an honest prover builds it (C15.proof_gen.wf): commitment key over the issuer modulus,
+/// well-formed signature proof, every embedded commitment a unit.  Under spok_wf (and the acceptance predicates) proof_verify cannot panic.
+pub open spec fn spok_wf(p: CL03PoKSignature, cpk: CL03CommitmentPublicKey, pk: CL03PublicKey, bases: Seq<Integer>, msgs: Seq<CL03Message>, idx: Seq<usize>, k: int) -> bool {
+    &&& cpk.N@ == pk.N@ && n5_wf(p.spok, cpk, pk, bases, msgs, idx, k)
+    &&& range_wf(p.range_proof_e, cpk.N@)
+    &&& forall|j: int| 0 <= j < idx.len() ==> range_wf(#[trigger] p.range_proofs_commited_mi@[j], cpk.N@)
+    &&& forall|j: int| 0 <= j < idx.len() ==> invertible((#[trigger] p.proofs_commited_mi@[j]).commitment.value@, cpk.N@)
 }
 
 pub open spec fn spok_ties_mi(p: CL03PoKSignature, idx: Seq<usize>) -> bool {
